@@ -255,9 +255,15 @@ func zzOccurs(needle, hay string) bool {
 func zzMask(name string, mk func() UdpPack, set func(UdpPack, string), get func(UdpPack) string, maxTok int) {
 	keys := [3]string{"password", "user", "host"}
 	nt := 1 + zzvf.Choose(maxTok)
-	sep := " "
-	if nt > 1 && zzvf.Choose(2) == 1 {
-		sep = ";"
+	// one separator PER GAP, chosen independently (mixed styles are connection strings
+	// "built from key=value tokens separated by spaces or semicolons" too)
+	sepKinds := []string{" ", ";"}
+	if zzvf.Thorough() {
+		sepKinds = []string{" ", ";", "; "}
+	}
+	var seps [3]string
+	for i := 1; i < nt; i++ {
+		seps[i] = sepKinds[zzvf.Choose(len(sepKinds))]
 	}
 	var isPw [3]bool
 	var vals [3]string
@@ -291,8 +297,8 @@ func zzMask(name string, mk func() UdpPack, set func(UdpPack, string), get func(
 	dbc, rest := "", ""
 	for i := 0; i < nt; i++ {
 		if i > 0 {
-			dbc += sep
-			rest += sep
+			dbc += seps[i]
+			rest += seps[i]
 		}
 		dbc += vals[i]
 		if isPw[i] {
